@@ -30,6 +30,13 @@ def check(run, tier):
                                       maxunits=64, direct=True, comps=False, big_geom=big, small=not big,
                                       weights={"transfer": 2, "distribute": 1, "aspirate": 2, "dispense": 2, "add": 3, "remove": 3})
         progs.append(p)
+    # very small and very large units (1/1024 and 2^-40 microlitre, 1024 microlitres): a volume that prints as 0.00 is still a volume
+    for i in range(30 if q else 600):
+        dev = "evo" if i % 2 == 0 else "fluent"
+        unit = [Fraction(1, 1024), Fraction(1, 2**40), Fraction(2**10)][i % 3]
+        progs.append(programs.worklist_program(r, f"C04/u{i}", dev, r.randint(2, 8), unit=unit, maxunits=64, wlmax=100, direct=True, comps=False,
+                                               flags={"records": False, "robot": False},
+                                               weights={"transfer": 4, "distribute": 1, "aspirate": 1, "dispense": 1, "add": 1, "remove": 1}))
     # specification -> code: behaviours enumerated by TLC on the bounded model, replayed on the implementation
     for cfg in ("MC_TwinGen_labware1",) if q else ("MC_TwinGen_labware1", "MC_TwinGen_mixed2", "MC_TwinGen_transfer1"):
         mprogs, res = behaviours.generate(cfg, timeout=3000)
